@@ -353,6 +353,7 @@ Section ViewFaithful.
       destruct lv; destruct r; reflexivity.
     - (* union *)
       destruct s as [| | | | | | | | |sn ss|]; simpl in Hb; try discriminate.
+      apply andb_prop in Hb. destruct Hb as [Hb _].
       apply andb3 in Hb. destruct Hb as [Hb [_ _]].
       destruct g as [| | | | | | | | | |gs|]; simpl in Hg; try discriminate.
       rewrite view_union_unfold, denote_union_unfold.
